@@ -157,6 +157,37 @@ CHECKS = {
              "finite placeholder times weight 0 is an exact zero - observed on the implementation). Out-of-int16 curves are dropped and "
              "counted. Axioms: real-number axioms for the V-curve theorem; the carrier-generic theorems are closed.",
         technique="Coq proof (carrier-generic structural independence + exact-arithmetic independence lemmas) + metamorphic runs + bit-exact correspondence"),
+    "C07": dict(
+        cat="proof",
+        text="Theorems (Props/C07.v, reals, every series / window / nodata placement): the generic model of gammastd returns, for each "
+             "valid observation of a fittable pixel, ndtri(p0 + (1 - p0) * gammainc(alpha, x / beta)) with p0 the zero share of the valid "
+             "cells and (alpha, beta) the result of gammafit on the calibration slice; gammafit returns beta = mean / alpha and alpha = "
+             "the value Brent's iteration ends on for log a - digamma a = s > 0 on [0.6 a0, 1.4 a0]; brentq (the literal 100-step loop) "
+             "keeps a sign change enclosed and on convergence returns a point within the tolerance of one; a continuous function has a "
+             "root in every enclosure (IVT). The binary64 instance with recorded log / digamma / gammainc / ndtri values is compared "
+             "bit-for-bit with compiled gammastd_yxt and gammastd_grp; every case is also compared with scipy.stats.gamma.fit(floc=0) + "
+             "gammainc + ndtri (int16/float64: exact rounded value, +-1 only at ties; float32: interval oracle).",
+        ref="7 (C07)",
+        note="Trusted: Coq kernel + vm_compute; harness; SciPy's special functions as oracles (the proof takes them as given functions; "
+             "that they are the gamma CDF / normal quantile / digamma is SciPy's); that Thom's +-40% bracket always contains the root is "
+             "not proved (a missed bracket gives an all-nodata pixel and fails the SciPy comparison). Axioms: real-number axioms and "
+             "classic (via the standard library's IVT_cor).",
+        technique="Coq proof (Brent enclosure invariant by induction on the loop, IVT, functional spec of gammastd) + bit-exact correspondence + independent SciPy oracle"),
+    "C08": dict(
+        cat="proof",
+        text="Theorems (Props/C08.v, reals): for every pixel and every pair of valid observations u <= v the model's index of u is <= that "
+             "of v (given non-decreasing gammainc(alpha, .) and ndtri, alpha, beta > 0, p0 <= 1), and the stored value - scale by 1000, round "
+             "half to even, saturate to [-32768, 32767] - is monotone and always within the int16 range; nodata and negative cells are "
+             "nodata; no valid cell / zero share > 0.9 / no positive value in the window (or a non-positive log-moment difference) gives "
+             "nodata everywhere. On the implementation 13 kinds of pixels (outliers x1e6 .. x1e-300, shape up to 1e4, negatives, all-nodata, "
+             "all-negative, all-zero, constant, > 90% zeros, empty windows, int16 extremes) and cubes mixing them are run through the "
+             "kernels and the accessor: no exception, clauses evaluated on the output, saturation against SciPy, and the int16/float64 "
+             "pixels replayed bit-for-bit in the model.",
+        ref="7 (C08)",
+        note="Trusted: Coq kernel + vm_compute; harness; monotonicity of SciPy's gammainc / ndtri is a hypothesis of the theorem and "
+             "observed on the explored inputs only; the float64 -> int16 store of a NaN is outside the model (after the fix commits no "
+             "finite input produces one). Axioms: real-number axioms of the standard library.",
+        technique="Coq proof (monotone composition, rounding and saturation lemmas, case analysis of the early returns) + clause checks on the implementation + bit-exact correspondence"),
     "C06": dict(
         cat="proof",
         text="Theorems (Props/C06.v, reals): from the variational characterisation of C01 (not from the elimination order) the Whittaker "
